@@ -229,24 +229,71 @@ example : formatRfc1123 1709210096 = "Thu, 29 Feb 2024 12:34:56 GMT" ∧
     formatRfc1123 (tMax - 1) = "Fri, 31 Dec 9999 23:59:59 GMT" := by
   decide +kernel
 
-/-- conversely, the parser accepts NOTHING but RFC-1123 renderings: if `s` parses to `t` then `s`
-    has the fixed width 29, starts with a weekday name, and from the comma on it is — up to letter
-    case — exactly `http_date`'s rendering of `t`; and `t` lies in the years 1–9999.  (The weekday
-    name is not checked against the date, exactly as in `strptime`.)  With `parse_format` this makes
-    "the instant an RFC-1123 string denotes" unambiguous. -/
+/-- an un-padded day of month (RFC 822/1123 `1*2DIGIT`; `strptime`'s `%d` takes one digit): the
+    28-character string obtained from `http_date`'s rendering of `t` by dropping the leading zero of a
+    day 01..09 parses to the same instant, for every whole second of the years 1000–9999 -/
+theorem parse_unpadded_day (t : Int) (h0 : tMin ≤ t) (h1 : t < tMax) (hd : (fieldsOfSeconds t).d < 10) :
+    formatUnpadded t = String.ofList ((formatRfc1123 t).toList.eraseIdx 5) ∧
+    (formatRfc1123 t).toList[5]? = some '0' ∧
+    parseRfc1123 (formatUnpadded t) = some t := by
+  obtain ⟨a, b⟩ := domain_years t h0 h1
+  have hd0 := (fieldsOfSeconds_ranges t).2.2.1
+  refine ⟨by simp only [formatUnpadded, unpadChars, formatRfc1123, String.toList_ofList], ?_, ?_⟩
+  · simp only [formatRfc1123, String.toList_ofList]
+    rw [← padDay_unpadChars t hd (by omega)]
+    exact padDay_get5 (by show 5 ≤ 28; decide)
+  · simp only [parseRfc1123, formatUnpadded, String.toList_ofList]
+    exact parseChars_unpadChars t a b hd
+
+example : formatUnpadded 1707482096 = "Fri, 9 Feb 2024 12:34:56 GMT" ∧
+    formatRfc1123 1707482096 = "Fri, 09 Feb 2024 12:34:56 GMT" ∧
+    parseRfc1123 "Fri, 9 Feb 2024 12:34:56 GMT" = some 1707482096 ∧
+    (fieldsOfSeconds 1707482096).d = 9 ∧ tMin ≤ 1707482096 ∧ (1707482096 : Int) < tMax := by
+  decide +kernel
+
+/-- only strings of 28 or 29 characters parse (a one-digit hour / minute / second, runs of white
+    space, a year that is not four digits are all outside the model's parser) -/
+theorem parse_length (s : String) (t : Int) (h : parseRfc1123 s = some t) :
+    s.toList.length = 28 ∨ s.toList.length = 29 :=
+  parseChars_length h
+
+example : parseRfc1123 "Fri, 09 Feb 2024 12:34:56 GMT" = some 1707482096 ∧
+    parseRfc1123 "Fri, 9 Feb 2024 12:34:56 GMT" = some 1707482096 ∧
+    parseRfc1123 "Fri,  9 Feb 2024 12:34:56 GMT" = none ∧
+    parseRfc1123 "Fri, 09 Feb 2024 2:34:56 GMT" = none ∧
+    parseRfc1123 "Fri, 9 Feb 2024 2:34:56 GMT" = none ∧
+    parseRfc1123 "Fri, 09 Feb 202 12:34:56 GMT" = none ∧
+    parseRfc1123 "Fri, 0 Feb 2024 12:34:56 GMT" = none ∧
+    parseRfc1123 "Fri,9 Feb 2024 12:34:56 GMT" = none := by
+  decide +kernel
+
+/-- conversely, the parser accepts NOTHING but RFC-1123 renderings, in either shape: if `s` parses to
+    `t` then there is a canonical string `c` — fixed width 29, starting with a weekday name, and from
+    the comma on, up to letter case, exactly `http_date`'s rendering of `t`, with `t` in the years
+    1–9999 — such that `s` is `c` itself, or `c` writes the day of month with a leading zero (so the
+    day is 1..9) and `s` is `c` without that zero.  (The weekday name is not checked against the
+    date, exactly as in `strptime`.)  With `parse_format` and `parse_unpadded_day` this makes "the
+    instant an RFC-1123 string denotes" unambiguous. -/
 theorem parse_sound (s : String) (t : Int) (h : parseRfc1123 s = some t) :
-    s.toList.length = 29 ∧
-    (∃ w, 0 ≤ w ∧ w < 7 ∧ (s.toList.take 3).map Char.toLower =
-      [(wdName w).1.toLower, (wdName w).2.1.toLower, (wdName w).2.2.toLower]) ∧
-    (s.toList.drop 3).map Char.toLower = ((formatRfc1123 t).toList.drop 3).map Char.toLower ∧
-    1 ≤ (fieldsOfSeconds t).y ∧ (fieldsOfSeconds t).y ≤ 9999 := by
-  have := parseChars_sound (l := s.toList) (t := t) h
-  simpa only [formatRfc1123, String.toList_ofList] using this
+    ∃ c : List Char,
+      (c.length = 29 ∧
+       (∃ w, 0 ≤ w ∧ w < 7 ∧ (c.take 3).map Char.toLower =
+          [(wdName w).1.toLower, (wdName w).2.1.toLower, (wdName w).2.2.toLower]) ∧
+       (c.drop 3).map Char.toLower = ((formatRfc1123 t).toList.drop 3).map Char.toLower ∧
+       1 ≤ (fieldsOfSeconds t).y ∧ (fieldsOfSeconds t).y ≤ 9999) ∧
+      (s.toList = c ∨
+       (c[5]? = some '0' ∧ (fieldsOfSeconds t).d < 10 ∧ s.toList = c.eraseIdx 5)) := by
+  obtain ⟨c, hc, hs⟩ := parseChars_sound (l := s.toList) (t := t) h
+  refine ⟨c, by simpa only [formatRfc1123, String.toList_ofList, CanonOf] using hc, ?_⟩
+  rcases hs with hs | ⟨h5, hs⟩
+  · exact Or.inl hs
+  · exact Or.inr ⟨h5, canon_day_lt_ten hc h5, hs⟩
 
 example : parseRfc1123 "mon, 29 FEB 2024 12:34:56 gmt" = some 1709210096 ∧
     parseRfc1123 "Thu, 29 Feb 2024 12:34:56 GMT " = none ∧
     parseRfc1123 "Thu, 29 Feb 2024 12:34:56 UTC" = none ∧
-    parseRfc1123 "Thu, 9 Feb 2024 12:34:56 GMT" = none := by
+    parseRfc1123 "thu, 9 feb 2024 12:34:56 Gmt" = some 1707482096 ∧
+    parseRfc1123 "Thu, 9 Feb 2023 12:34:60 GMT" = none := by
   decide +kernel
 
 /-- converting an instant to ANY zone (arbitrary offset function, so every DST rule) yields an
